@@ -337,3 +337,8 @@ Proof.
   { unfold scrolls. destruct S as (A & _ & _ & D & _). rewrite A, D. reflexivity. }
   rewrite Es. destruct (forallb _ _); [|reflexivity]. apply IH, S1.
 Qed.
+
+(** inside a box, or the cursor movement to the start of the line below it *)
+Definition ev_box_or_below (r0 lm ph pw : Z) (e : ev) : bool :=
+  ev_inside r0 lm ph pw e
+  || match e with EMove r c => (r =? r0 + ph) && (c =? lm) | _ => false end.
